@@ -40,6 +40,8 @@ def run_check(prop, spec, tier, seed, replay=None):
     os.makedirs(outdir, exist_ok=True)
 
     jobs = [j for j in spec['jobs'] if tier_val(j.get('cases', 1), tier) != 0]
+    if os.environ.get('VERIF_JOBS'):   # debugging aid: restrict to jobs whose name matches (floors will then usually not be reached)
+        jobs = [j for j in jobs if re.search(os.environ['VERIF_JOBS'], j['name'])]
     # ---- build
     bins = {}
     try:
